@@ -22,11 +22,18 @@ Proof.
   - intros U P. apply (proj2 (ev_kick _ EI)). split; assumption.
 Qed.
 
-Definition ODI (s s' : core) : Prop := OD s -> OD s'.
+Record ODI (s s' : core) : Prop := {
+  oi_od : OD s -> OD s'; oi_epfd : epfd s' = epfd s; oi_isep : is_epoll s' = is_epoll s }.
 
-Lemma ODI_refl : forall s, ODI s s. Proof. intros s H. exact H. Qed.
-Lemma ODI_trans : forall a b c, ODI a b -> ODI b c -> ODI a c. Proof. unfold ODI. auto. Qed.
-Lemma ODI_OF : forall s s', OF s s' -> ODI s s'. Proof. intros s s' F D. eapply OD_OF; eassumption. Qed.
+Lemma ODI_refl : forall s, ODI s s. Proof. intros s. constructor; auto. Qed.
+Lemma ODI_trans : forall a b c, ODI a b -> ODI b c -> ODI a c.
+Proof. intros a b c [] []. constructor; [auto|congruence|congruence]. Qed.
+Lemma ODI_OF : forall s s', OF s s' -> ODI s s'.
+Proof.
+  intros s s' F. constructor; [intros D; eapply OD_OF; eassumption| |]; destruct F as [_ E]; unfold owners in E.
+  - congruence.
+  - unfold is_epoll. replace (method s') with (method s) by congruence. reflexivity.
+Qed.
 Lemma ODI_plain : forall s s', kern s' = kern s -> owners s' = owners s -> ODI s s'.
 Proof. intros. apply ODI_OF. apply OF_plain; assumption. Qed.
 Lemma ODI_kern : forall s k', KO (kern s) k' -> ODI s (set_kern s k').
@@ -62,7 +69,9 @@ Lemma do_action_O' : forall s a, InvW s -> wf_action a -> PO s (do_action s a).
 Proof.
   intros s a I W. pose proof (do_action_ok s a I W) as P.
   pose proof (fun D => do_action_O s a D (InvW_OH s I) W) as Q.
-  destruct (do_action s a) as [s1|s1]; unfold PO; cbn [okr ARes] in *; [|exact Logic.I]. split; [apply P|exact Q].
+  pose proof (do_action_tm s a) as T. unfold tmr in T.
+  destruct (do_action s a) as [s1|s1]; unfold PO; cbn [okr ARes res_state] in *; [|exact Logic.I]. split; [apply P|].
+  destruct T as (T1 & T2 & T3). constructor; [exact Q|exact T3|unfold is_epoll; rewrite T2; reflexivity].
 Qed.
 
 Lemma run_acts_O : forall l s, InvW s -> Forall wf_action l -> PO s (run_acts s l).
